@@ -218,7 +218,7 @@ def C14(ctx):
     for bug, inv in (("call_before_rules", "ProviderLast"), ("retry_on_error", "ProviderOnce"),
                      ("accept_on_provider_error", "OkNeedsAnswer"), ("skip_ready", "CallOnlyWhenReady")):
         mc(ctx, "SigV4", "MC_SigV4_bug_%s.cfg" % bug, expect_violation=inv, label="neg-" + bug)
-    req_campaign(ctx, [("scripts", 0), ("defects", 1), ("forever", 0), ("zerokey", 0), ("ioerr", 0), ("akid", 0)])
+    req_campaign(ctx, [("scripts", 0), ("defects", 1), ("forever", 0), ("zerokey", 0), ("ioerr", 0), ("akid", 0), ("adapter", 0)])
     return dict(
         rule="MC: provider process with delayed readiness / delayed answer / SignatureError / foreign error scripts, "
              "ProviderOnce, ProviderLast, CallOnlyWhenReady, CallsExact, OkNeedsAnswer, HistoryFree over histories of "
